@@ -549,6 +549,15 @@ func Solve(dir, name, query string, timeoutS int, all bool, seed int) SolveResul
 			cmd.Run()
 			el := time.Since(start).Seconds()
 			o := out.String()
+			// solvers print warnings (e.g. about quantifier patterns) before the answer: skip them
+			var kept []string
+			for _, ln := range strings.Split(o, "\n") {
+				if strings.HasPrefix(strings.TrimSpace(ln), "WARNING") {
+					continue
+				}
+				kept = append(kept, ln)
+			}
+			o = strings.Join(kept, "\n")
 			first := strings.TrimSpace(strings.SplitN(o, "\n", 2)[0])
 			st := "unknown"
 			switch {
